@@ -10,8 +10,8 @@
    list, per-codec and per-hash counts in ascending key order, roots-present = every root, with
    its duplicates, is the CID of some block).
    The model is the code as repaired by notes/fixes/C13-*.patch (see Inspect.v, "FIX"). *)
-From GoCar Require Import Bytes Varint Cid Header Frame V2Header Scan Inspect.
-From GoCarProofs Require Import InspectC13.
+From GoCar Require Import Bytes Varint Cid Header Frame V2Header Scan CliCmds Inspect.
+From GoCarProofs Require Import InspectFacts InspectC13 InspectQuick InspectCli.
 
 (* For every hash oracle, header decoder, option set (ZeroLengthSectionAsEOF, header limit,
    section limit up to go-cid's 32 MiB stream-parser cap) and EVERY byte string NewReader
@@ -50,3 +50,68 @@ Theorem C13_inspect_eof_error_never_from_a_section :
     read_header hdrdec (o_maxh o) (data_window rd file) = Err EEof \/ index_codec rd file = Err EEof.
 Proof. exact inspect_eof_origin. Qed.
 Print Assumptions C13_inspect_eof_error_never_from_a_section.
+
+(* ---- round 3: Inspect(false) -------------------------------------------------------------- *)
+(* C13's statement is about full-validation inspection; Inspect(false) is documented to skip the
+   block data.  What it accepts, exactly: for every byte string NewReader accepts (section limit
+   within 32 MiB), Inspect(false) = Ok st iff the index codec is readable and the NON-verifying
+   BlockReader scan (TrustedCAR) of the same bytes either
+     (a) ends cleanly, and st = the statistics of the scanned blocks, or
+     (b) stops with ErrUnexpectedEOF at a final section whose CID is complete but whose data is cut
+         short ([cut_last] of the unread rest), and st counts that section with its promised length
+         on top of the scanned blocks.
+   Shape (b) is the truncated last block Inspect(false) lets through (dr.Seek past the end, then a
+   clean EOF); InspectExamples.c13_quick_accepts_a_cut_last_block is a witness.  Nothing else
+   separates Inspect(false) from the scan. *)
+Theorem C13_inspect_without_validation_characterised :
+  forall hok hdrdec o file rd,
+    o_maxs o <= max_digest_alloc ->
+    new_reader hdrdec o file = Ok rd ->
+    forall st,
+      inspect hok hdrdec o rd file false = Ok st <->
+      exists roots blocks e codec,
+        br_read_all hok hdrdec (mkropts (o_zeof o) (o_maxh o) (o_maxs o) true) file
+        = Ok (r_version rd, roots, mkscan blocks e) /\
+        index_codec rd file = Ok codec /\
+        ((e = EEof /\ st = stats_of (r_version rd) (r_hdr rd) roots blocks codec) \/
+         (e = EUnexpectedEof /\
+          exists c p cn bl,
+            cut_last o (br_read_tail hok hdrdec (mkropts (o_zeof o) (o_maxh o) (o_maxs o) true) file)
+            = Some (c, p, cn, bl) /\
+            st = finish_stats rd roots
+                   (iacc_step roots c p cn bl (fold_left (blk_step roots) blocks (iacc0 roots))) codec)).
+Proof. exact c13_quick. Qed.
+Print Assumptions C13_inspect_without_validation_characterised.
+
+(* ---- round 3: the CLI path (cmd/car/lib/inspect.go) ---------------------------------------- *)
+(* [inspect_car] is the model of lib.InspectCar that C19's check ties to the `car inspect` binary
+   (CliCmds.v); [cli_opts] are the options it fixes (ZeroLengthSectionAsEOF(true), default
+   limits); [stats_of_istats] reads its per-section record as a Stats value.  lib.InspectCar is
+   exactly NewReader + Inspect with those options; the only thing it adds is the CARv1 --full
+   check that nothing follows the point where Inspect stopped. *)
+Theorem C13_cli_inspect_is_inspect_with_the_cli_options :
+  forall hok hdrdec full file,
+    match inspect_car hok hdrdec full file with
+    | Ok ist => inspect_file hok hdrdec cli_opts file full = Ok (stats_of_istats ist)
+    | Err e =>
+        inspect_file hok hdrdec cli_opts file full = Err e \/
+        (e = EOther /\ full = true /\
+         exists ist, inspect_file hok hdrdec cli_opts file full = Ok (stats_of_istats ist) /\
+                     is_ver ist = 1 /\ is_end ist < blen file)
+    end.
+Proof. exact cli_inspect_car. Qed.
+Print Assumptions C13_cli_inspect_is_inspect_with_the_cli_options.
+
+(* hence: whenever `car inspect --full` succeeds, the hash-verifying BlockReader scan of the same
+   file (same options) ends cleanly, the claimed index codec is readable, and the report is the
+   statistics of the scanned blocks *)
+Theorem C13_cli_inspect_full_reports_what_the_scan_finds :
+  forall hok hdrdec file ist,
+    inspect_car hok hdrdec true file = Ok ist ->
+    exists rd roots blocks codec,
+      new_reader hdrdec cli_opts file = Ok rd /\
+      br_read_all hok hdrdec cli_opts file = Ok (r_version rd, roots, mkscan blocks EEof) /\
+      index_codec rd file = Ok codec /\
+      stats_of_istats ist = stats_of (r_version rd) (r_hdr rd) roots blocks codec.
+Proof. exact cli_inspect_full_agrees_with_scan. Qed.
+Print Assumptions C13_cli_inspect_full_reports_what_the_scan_finds.
